@@ -8,6 +8,9 @@ def run_all(timeout=1800):
     if REPO != '/repo':
         tag = os.path.basename(REPO.rstrip('/'))
         env.update({'VERIF_REPO': REPO, 'VERIF_CACHE_TAG': '-' + tag, 'VERIF_EVIDENCE': '/tmp/evidence-' + tag})
+    else:
+        # a matrix run judges a MUTATED tree: its evidence must never land in /verif/evidence (committed evidence comes from the unchanged tree only)
+        env.setdefault('VERIF_EVIDENCE', '/tmp/evidence-matrix')
     r = subprocess.run(['./check', 'ALL'], cwd=os.environ.get('VERIF_ROOT', '/verif'), capture_output=True, text=True, timeout=timeout, env=env)
     out, cur = {}, []
     for l in r.stdout.splitlines():
